@@ -5,6 +5,7 @@ CONSTANTS
   SkipFix = TRUE
   CctFix = TRUE
   SelfFailFix = FALSE
+  StaleResetFix = TRUE
   FlushFix = FALSE
   QMax = 100
   PPInterval = 2
